@@ -19,7 +19,7 @@ import (
 )
 
 // Bases of C13 (provided handlers only).
-var C13BaseNames = []string{"Default", "Cache", "Router", "Merge(Cache,Router)", "Merge(Router,Default,Cache)", "Merge(Merge(Cache,Router),Router)", "SQLite", "Merge(Cache,Router,SQLite)", "SQLite whose bulk-insert goroutine has stopped (store context cancelled, 2-slot queue fills up)"}
+var C13BaseNames = []string{"Default", "Cache", "Router", "Merge(Cache,Router)", "Merge(Router,Default,Cache)", "Merge(Merge(Cache,Router),Router)", "SQLite", "Merge(Cache,Router,SQLite)", "SQLite whose bulk-insert goroutine has stopped (store context cancelled, 2-slot queue fills up)", "Merge(Default,Router,Default): every REQ is answered by two CLOSED"}
 
 // C13BaseStoppedStore is the index of the SQLite base whose bulk-insert goroutine has stopped.
 const C13BaseStoppedStore = 8
@@ -93,6 +93,8 @@ func (env *c13Env) base(h *vsched.H, i int) mocrelay.Handler {
 		return mocrelay.NewMergeHandler(mocrelay.NewCacheHandler(10), env.newRouter(), env.newSQLite(h))
 	case 8:
 		return env.newSQLiteOpt(h, true)
+	case 9:
+		return mocrelay.NewMergeHandler(mocrelay.NewDefaultHandler(), env.newRouter(), mocrelay.NewDefaultHandler())
 	}
 	panic("bad base")
 }
